@@ -176,7 +176,7 @@ CHECKS.update(
         "C08": dict(
             category="exploration",
             technique=WORLDS + ": CSV trace and counters compared with the observed run, trace fed to the project's CSVReader",
-            text="Bounded stand-in for rows / reader (per world, the SIMULATOR_END counters, every row's fields, scheduler rows and the reader's reconstruction are compared with what an observer saw) plus pyvc obligations on Simulator.__handle_task_finished: the finished counter moves by exactly one, the missed-deadline counter moves iff completion is later than the deadline, graph counters move at most once and only together; Simulator.__handle_task_cancellation: the cancelled-task counter moves by exactly one per TASK_CANCEL event.",
+            text="Bounded stand-in for rows / reader (per world, the SIMULATOR_END counters, every row's fields, scheduler rows and the reader's reconstruction are compared with what an observer saw) plus pyvc obligations on Simulator.__handle_task_finished: the finished counter moves by exactly one, the missed-deadline counter moves iff completion is later than the deadline, graph counters move at most once and only together; Simulator.__handle_task_cancellation: the cancelled-task counter moves by exactly one per TASK_CANCEL event; Simulator.__create_events_from_task_placement: the pending TASK_PLACEMENT event (from which the placement row is written) carries THIS decision, also when a SCHEDULED task is decided again; TaskGraph.deadline#body: the graph deadline a graph-level miss is measured against is the latest task deadline of the graph (related to the abstract contract the finish handler uses by TaskGraph.deadline#refines).",
             note="Bounded; sampled worlds (not exhaustive); observer wraps Task/Worker methods in the checking process. The CSV rows themselves (f-strings) are not modelled by pyvc.",
             design_ref="DESIGN.md section 6 (C08)",
         ),
